@@ -84,7 +84,8 @@ fn opt_strs(xs: &[Option<&str>]) -> Vec<RVal> {
 /// Batch shapes for C07. The columns x (int), y (float), z (string) are shared by the shapes and
 /// take every presence class (dense, nullable with a NULL in the first row, all NULL, absent) and
 /// every encoding class, so that compaction merges partitions in which the same column is
-/// non-null / nullable / absent in any order, with row counts that are not multiples of 8.
+/// non-null / nullable / absent in any order, with row counts that are not multiples of 8 except
+/// for one shape of exactly 16 rows.
 pub fn c07_batches() -> Vec<Batch> {
     let long = "x".repeat(300);
     vec![
@@ -96,13 +97,23 @@ pub fn c07_batches() -> Vec<Batch> {
                 .col("y", vec![rf(0.5), rf(2.0), rf(-1.25)])
                 .col("z", strs(&["a", "b", "a"])),
         ),
-        // all three nullable, NULL in the first row
+        // all three nullable, NULL in the first row; exactly 16 rows, so that a chunk pushed after it by a
+        // compaction starts on a byte boundary of the null map (the other shapes never do); x and y are
+        // NULL in the whole second half (their lazily grown null maps end one byte early), z has a value
+        // in the last row
         Batch::one(
-            TableBatch::new("t", 4)
-                .col("id", ints(&[10, 11, 12, 13]))
-                .col("x", opt_ints(&[None, Some(5), None, Some(-7)]))
-                .col("y", opt_floats(&[None, Some(1.5), None, Some(-0.0)]))
-                .col_repr("z", opt_strs(&[None, Some("q"), Some(""), None]), Repr::Mixed),
+            TableBatch::new("t", 16)
+                .col("id", ints(&[10, 11, 12, 13, 14, 15, 16, 17, 18, 19, 110, 111, 112, 113, 114, 115]))
+                .col("x", opt_ints(&[None, Some(5), None, Some(-7), None, None, None, None, None, None, None, None, None, None, None, None]))
+                .col(
+                    "y",
+                    opt_floats(&[None, Some(1.5), None, Some(-0.0), None, Some(2.5), Some(3.5), None, None, None, None, None, None, None, None, None]),
+                )
+                .col_repr(
+                    "z",
+                    opt_strs(&[None, Some("q"), Some(""), None, Some("q"), Some("r"), None, Some("s"), None, None, Some("q"), None, None, None, Some("r"), Some("t")]),
+                    Repr::Mixed,
+                ),
         ),
         // wide ints, hex strings (packed-hex codec), y absent
         Batch::one(
